@@ -8,7 +8,8 @@
      Lists      "best"   a faulty sender sends only the best list it can build, when it is complete
                 "attack" the whole repertoire AttackLists (every near miss: substitutions from other sessions /
                          ids / payloads / members, garbage, swaps, truncation, extension), for every payload it
-                         holds at least one honest signature for  *)
+                         holds at least one honest signature for, and ReplayLists (the complete signature set of
+                         ANOTHER payload / id / session, e.g. one a member has already accepted)  *)
 EXTENDS BcastDKG
 CONSTANTS MCCfgs, Bodies, MaxFSig, MaxB, Lists, BadId,
           Conc       \* 0: requests of faulty members are served one at a time (FSig);  k > 0: up to k of them are inside
@@ -29,7 +30,11 @@ MCInit == (\E c \in MCCfgs : InitWith(c)) /\ nb = 0 /\ nf = 0
 \* taken in member order (they commute; everything a faulty member does may still interleave anywhere).
 NextToAsk(h, s) == CHOOSE m \in Members : ~Answered(h, s, m) /\ \A k \in Members : k < m => Answered(h, s, k)
 AllAnswered(h, s) == \A m \in Members : Answered(h, s, m)
-Delivers(r, s, from, id, pl, sigs) == Verify(s, id, pl, sigs) /\ [from |-> from, id |-> id, pl |-> pl] \notin Invoked(r, s)
+\* (in the control variants with a memory of verified signature sets a delivery may also add to that memory)
+Delivers(r, s, from, id, pl, sigs) ==
+  /\ Passes(r, s, id, pl, sigs)
+  /\ \/ [from |-> from, id |-> id, pl |-> pl] \notin Invoked(r, s)
+     \/ SigCache # "none" /\ ~CacheHit(r, s, id, sigs)
 FSendOrRelay(f, r, s, id, pl, sigs) == FSend(f, r, s, id, pl, sigs) \/ RelayForeignPayload(f, r, s, id, pl, sigs)
 MCNext ==
   \/ /\ nb < MaxB /\ ~SomeActive /\ nb' = nb + 1 /\ UNCHANGED nf
@@ -68,10 +73,9 @@ MCNext ==
                    THEN /\ Complete(s, id, pl) /\ Verify(s, id, pl, BestList(s, id, pl))
                         /\ \E r \in Honest : /\ Delivers(r, s, f, id, pl, BestList(s, id, pl))
                                              /\ FSendOrRelay(f, r, s, id, pl, BestList(s, id, pl))
-                   ELSE /\ \E g \in known : g.pl = pl
-                        /\ \E sigs \in AttackLists(s, id, pl) :
-                              /\ Verify(s, id, pl, sigs)
-                              /\ \E r \in Honest : Delivers(r, s, f, id, pl, sigs) /\ FSendOrRelay(f, r, s, id, pl, sigs)
+                   ELSE /\ SigCache # "none" \/ \E g \in known : g.pl = pl      \* (nothing else can verify)
+                        /\ \E sigs \in AttackLists(s, id, pl) \cup ReplayLists :
+                              \E r \in Honest : Delivers(r, s, f, id, pl, sigs) /\ FSendOrRelay(f, r, s, id, pl, sigs)
 MCSpec == MCInit /\ [][MCNext]_mcvars
 \* a message that fails verification is not delivered, whatever the list (sanity of Verify against the repertoire)
 Sym == Permutations(Bodies) \cup Permutations(Sessions) \cup Permutations(Allowed)
